@@ -293,7 +293,8 @@ def run(ctx):
                 '21 shipped configurations and random compositions, debug on/off, with out-of-space actions mixed in; (d) membership predicates on '
                 'conforming and near-miss inputs; non-trivial = the step changed the state or a trajectory/membership case')
     types_of_case = {}
-    tsuite.run_cases(ctx, itt.chain(tsuite.corpus(), conforming_cases(ctx, types_of_case), exhaustive_cases(ctx, types_of_case)),
+    tsuite.run_cases(ctx, itt.chain(tsuite.corpus(), conforming_cases(ctx, types_of_case), tsuite.wrap_cases(ctx, 300 if ctx.tier == 'quick' else 3000),
+                                    exhaustive_cases(ctx, types_of_case)),
                      oracle_factory(types_of_case))
     trajectories(ctx)
     functional_steps(ctx)
